@@ -65,6 +65,10 @@ pub struct HedgeCase {
     /// (`svc.oneshot(req)`)
     #[serde(default)]
     pub drop_service: bool,
+    /// bit k set: the k-th clone made of the wrapped service fails its readiness check (an
+    /// attempt that cannot even start counts as a failed attempt, nothing more)
+    #[serde(default)]
+    pub fail_clone_mask: u8,
 }
 
 #[derive(Clone, Debug, Serialize, Deserialize)]
@@ -99,6 +103,7 @@ fn stress_strategy(tier: Tier) -> BoxedStrategy<HedgeCase> {
             spawned_first: false,
             listeners: true,
             drop_service: false,
+            fail_clone_mask: 0,
             stress: Some(HedgeStress {
                 max,
                 fail_first: fail_first.min(max),
@@ -245,9 +250,10 @@ fn case_strategy(_tier: Tier) -> BoxedStrategy<HedgeCase> {
             prop::bool::weighted(0.35),
             prop::bool::weighted(0.3),
             prop::bool::weighted(0.3),
+            prop_oneof![4 => Just(0u8), 1 => prop_oneof![Just(2u8), Just(4u8), Just(6u8), any::<u8>()]],
         ),
     )
-        .prop_map(|(max, delay, attempts, order, step_ms, max_last, (clone_ready_ms, drain_budget, poll_delay, spawned_first, listeners, drop_service))| HedgeCase {
+        .prop_map(|(max, delay, attempts, order, step_ms, max_last, (clone_ready_ms, drain_budget, poll_delay, spawned_first, listeners, drop_service, fail_clone_mask))| HedgeCase {
             max,
             delay,
             attempts,
@@ -262,6 +268,7 @@ fn case_strategy(_tier: Tier) -> BoxedStrategy<HedgeCase> {
             listeners,
             stress: None,
             drop_service,
+            fail_clone_mask,
         })
         .boxed()
 }
@@ -346,7 +353,9 @@ async fn interp(case: &HedgeCase) -> Verdict {
         b = b.on_event(Quiet);
     }
     let layer = b.build();
-    let mut svc = layer.layer(crate::svc::SlowClones::new(inner.clone(), case.clone_ready_ms));
+    let wrapped = crate::svc::SlowClones::failing(inner.clone(), case.clone_ready_ms, case.fail_clone_mask);
+    let ready_failures = wrapped.ready_failures.clone();
+    let mut svc = layer.layer(wrapped);
     let req = Req {
         id: 0,
         key: 3,
@@ -397,17 +406,20 @@ async fn interp(case: &HedgeCase) -> Verdict {
         }
     }
     let nstart = starts.len();
+    // attempts that could not start because their clone's readiness check failed
+    let nfail = ready_failures.load(std::sync::atomic::Ordering::SeqCst) as usize;
     if nstart == 0 {
         violations.push("the inner service was never called".into());
     }
-    if nstart > case.max {
+    if nstart + nfail > case.max {
         violations.push(format!(
-            "{nstart} inner calls started, max_hedged_attempts={}",
+            "{nstart} inner calls started and {nfail} attempts refused by their clone's readiness, max_hedged_attempts={}",
             case.max
         ));
     }
     let all_zero = (1..case.max).all(|k| delay_ms(&case.delay, k) == 0);
-    for k in 1..nstart {
+    // (with attempts that never started in between, the k-th inner call is not hedge number k)
+    for k in 1..(if nfail == 0 { nstart } else { 0 }) {
         let d = if k < case.max { delay_ms(&case.delay, k) } else { 0 };
         if starts[k].0 < starts[k - 1].0.saturating_add(d) {
             violations.push(format!(
@@ -423,7 +435,7 @@ async fn interp(case: &HedgeCase) -> Verdict {
         // parallel mode: everything starts at once (hedges, which run on fresh clones, as soon as
         // those are ready: all of them in the same instant)
         let hedge_t = starts[0].0 + case.clone_ready_ms;
-        if nstart != case.max || starts.iter().skip(1).any(|s| s.0 != hedge_t) {
+        if nstart + nfail != case.max || starts.iter().skip(1).any(|s| s.0 != hedge_t) {
             violations.push(format!(
                 "parallel mode: expected {} attempts, the hedges all at t={}, saw starts {:?}",
                 case.max,
@@ -469,7 +481,7 @@ async fn interp(case: &HedgeCase) -> Verdict {
             // with a Duration::MAX delay ahead and no success so far the call rightly keeps waiting
             let waits_for_a_hedge_that_never_comes = (1..case.max)
                 .any(|k| delay_ms(&case.delay, k) == u64::MAX)
-                && nstart < case.max
+                && nstart + nfail < case.max
                 && (0..nstart).all(|k| !fin(k).1);
             if sim.state(task) == TaskState::Live && !waits_for_a_hedge_that_never_comes {
                 violations.push(format!(
@@ -509,9 +521,9 @@ async fn interp(case: &HedgeCase) -> Verdict {
             }
         }
         Some((rt, Outcome::Layer(_))) => {
-            if nstart != case.max {
+            if nstart + nfail != case.max {
                 violations.push(format!(
-                    "all-attempts-failed reported at t={rt} after starting only {nstart} of max_hedged_attempts={}",
+                    "all-attempts-failed reported at t={rt} after starting only {nstart} of max_hedged_attempts={} ({nfail} more refused by their clone's readiness check)",
                     case.max
                 ));
             }
@@ -563,6 +575,9 @@ async fn interp(case: &HedgeCase) -> Verdict {
     }
     if case.drop_service {
         classes.push("service_dropped_right_after_call");
+    }
+    if nfail > 0 {
+        classes.push("hedge_clone_failed_its_readiness_check");
     }
     let _ = &keep_alive;
     if case.spawned_first {
